@@ -413,13 +413,14 @@ class Runtime:
 
     def do_call(self, op: dict, u: str) -> None:
         f, o, a = op["f"], op["o"], op["a"]
-        self.emit("call", f, o, a)
+        extra = {"result": 1} if op.get("bad") else {}   # a keyword named like the postconditions' reserved name
+        self.emit("call", f, o, a, 1 if extra else 0)
         try:
             callee = self.resolve(f, o, op.get("kw", 0))
             if self.prog["fn"][f - 1]["async"]:
-                result = self.sched.run_coro_inline(callee(self.arg(a)))
+                result = self.sched.run_coro_inline(callee(self.arg(a), **extra))
             else:
-                result = callee(self.arg(a))
+                result = callee(self.arg(a), **extra)
         except HarnessAbort:
             raise
         except BaseException as exc:  # noqa
@@ -432,13 +433,14 @@ class Runtime:
 
     async def do_call_async(self, op: dict, u: str) -> None:
         f, o, a = op["f"], op["o"], op["a"]
-        self.emit("call", f, o, a)
+        extra = {"result": 1} if op.get("bad") else {}
+        self.emit("call", f, o, a, 1 if extra else 0)
         try:
             callee = self.resolve(f, o, op.get("kw", 0))
             if self.prog["fn"][f - 1]["async"]:
-                result = await callee(self.arg(a))
+                result = await callee(self.arg(a), **extra)
             else:
-                result = callee(self.arg(a))
+                result = callee(self.arg(a), **extra)
         except HarnessAbort:
             raise
         except BaseException as exc:  # noqa
